@@ -443,7 +443,17 @@ def _sorted(E, a, kw, fr, node):
     return r
 
 
+SORT_HOOKS = []   # sidecar hooks giving list.sort a typed specification: f(E, ref, key, fr, node) -> handled?
+
+
 def sort_list(E, ref, key, fr, node):
+    for h in SORT_HOOKS:
+        if h(E, ref, key, fr, node):
+            return None
+    return _sort_list_generic(E, ref, key, fr, node)
+
+
+def _sort_list_generic(E, ref, key, fr, node):
     """list.sort(key=f): result is a permutation, ordered by key (stable). Trusted builtin contract B3.
     The permutation fact is stated through an uninterpreted `sorted_by` function of the input list so that
     equal inputs give equal outputs (determinism), plus length preservation; ordering facts are exposed to
@@ -599,3 +609,53 @@ def _from_bytes(E, a, kw, fr, node):
     if not is_byteslike(b):
         raise PyRaise("TypeError", _line(node))
     return SV(L.b2i(lift(b).t), TInt)
+
+
+# ---- pickle (P1: loads(dumps(x)) == x for values built from dict / list / tuple / set / bytes / int / None) --------
+class Unpickled:
+    """result of pickle.loads before its static type is known (fixed by the typed local it is assigned to)"""
+
+    def __init__(self, data):
+        self.data = data
+
+
+def _tyname(ty):
+    return repr(ty).replace("[", "_").replace("]", "").replace(",", "_")
+
+
+def pickle_fns(ty):
+    return (z3.Function("pickle_" + _tyname(ty), sort(ty), BYTES),
+            z3.Function("unpickle_" + _tyname(ty), BYTES, sort(ty)))
+
+
+@external("pickle.dumps", "P1: pickle.loads(pickle.dumps(x)) == x (same types, same order)")
+def _dumps(E, a, kw, fr, node):
+    sv = E.to_sv(a[0])
+    pk, unpk = pickle_fns(sv.ty)
+    E.assume(unpk(pk(sv.t)) == sv.t)
+    return SV(pk(sv.t), TBytes)
+
+
+@external("pickle.loads", "P1")
+def _loads(E, a, kw, fr, node):
+    return Unpickled(lift(a[0]))
+
+
+def resolve_unpickled(E, u, ty):
+    pk, unpk = pickle_fns(ty)
+    sv = SV(unpk(u.data.t), ty)
+    if isinstance(ty, TList):
+        return E.new_symlist(sv)
+    if isinstance(ty, TDict):
+        return E.alloc(("dict", sv))
+    if isinstance(ty, TTuple):
+        return tuple(resolve_component(E, x) for x in E.unbox(sv))
+    return sv
+
+
+def resolve_component(E, x):
+    if isinstance(x, SV) and isinstance(x.ty, TList):
+        return E.new_symlist(x)
+    if isinstance(x, SV) and isinstance(x.ty, TDict):
+        return E.alloc(("dict", x))
+    return x
